@@ -29,6 +29,8 @@ func seqSender(w *World, name string, errs *[]string) gen.PID {
 				var err error
 				if strings.HasPrefix(x, "!") { // sent with the important-delivery flag
 					err = p.SendImportant(r.to, x)
+				} else if strings.HasPrefix(x, "^") { // sent with an explicit (High) priority
+					err = p.SendWithPriority(r.to, x, gen.MessagePriorityHigh)
 				} else {
 					err = p.Send(r.to, x)
 				}
@@ -105,6 +107,46 @@ func init() {
 					got := handled(nw.b.recs["R"], "M:")
 					if !inOrder(got, msgs) {
 						nw.ex.Fail("network-order-violated", "sender %d on A sent %v to receiver %d on B (pool of %d links, slow link %d); they were handled in the order %v", spid.ID, msgs, rpid.ID, c.pool, c.hold, got)
+					}
+					if len(got) != len(msgs) && len(errs) == 0 {
+						nw.ex.Fail("network-message-lost", "sent %v, handled %v, no send error", msgs, got)
+					}
+					nw.Out("got=%s errs=%v", strings.Join(got, ","), errs)
+				}
+			})})
+		}})
+	}
+	// the same with every message sent through SendWithPriority (one priority: the order of the sends is the order of handling)
+	for _, c := range []cfg{{0, 0, 1, -1}, {0, 0, 2, -1}, {0, 0, 2, 0}, {0, 0, 2, 1}} {
+		c := c
+		name := fmt.Sprintf("fifo-with-priority-pool%d", c.pool)
+		if c.hold >= 0 {
+			name += fmt.Sprintf("-slowlink%d", c.hold)
+		}
+		harn.Register(harn.Scenario{Property: "C13", Name: name, Run: func(ctx *harn.Ctx) *harn.Result {
+			return harn.Explore(ctx, harn.Sched{QuickBound: 1, ThoroughBound: 2, Preempt: false, Cache: true, Body: netBody(netOpts{}, func(nw *NetWorld) {
+				var errs []string
+				spid := seqSender(nw.a, "S", &errs)
+				rpid := nw.b.spawnProbe("R", probeCfg{}, gen.ProcessOptions{})
+				nw.connect()
+				for k := 1; k < c.pool; k++ {
+					nw.addLink()
+				}
+				if nw.ex.Failed() {
+					return
+				}
+				msgs := []string{"^m1", "^m2", "^m3"}
+				if c.hold >= 0 {
+					nw.links[c.hold].cb.Hold = true
+				}
+				nw.ex.Thread("GO", func() { nw.a.n.Send(spid, seqReq{rpid, msgs}) })
+				if c.hold >= 0 {
+					nw.ex.ThreadLow("RELEASE", func() { nw.links[c.hold].cb.Hold = false })
+				}
+				nw.Check = func() {
+					got := handled(nw.b.recs["R"], "M:")
+					if !inOrder(got, msgs) {
+						nw.ex.Fail("network-order-violated", "sender %d on A sent %v with SendWithPriority(High) to receiver %d on B (pool of %d links, slow link %d); they were handled in the order %v", spid.ID, msgs, rpid.ID, c.pool, c.hold, got)
 					}
 					if len(got) != len(msgs) && len(errs) == 0 {
 						nw.ex.Fail("network-message-lost", "sent %v, handled %v, no send error", msgs, got)
